@@ -298,6 +298,45 @@ def r4(prog, rep):
     rep.check(ok and rets == [-1, 0], "R4-fill", "entropy_read fills the caller's whole buffer or fails", er.loc, "", function=er.name, construct="entropy_read")
 
 
+def r5_whole(prog, rep):
+    """crypto_entropy_read answers success only when it has produced every byte asked for: relational (sa/poly.py) - at each
+    `return (0)` the remaining length is provably 0; each generate step is asked for between 1 and GENERATE_MAXLEN bytes and no more
+    than remain; and the output cursor and the remaining length both move by exactly the amount generated."""
+    from .. import poly
+    from ..poly import Lin
+    u = prog.unit(UNIT)
+    f = u.func("crypto_entropy_read")
+    if f is None:
+        raise cdb.AnalysisBroken("anchor missing: crypto_entropy_read")
+    BUF = ("v", f.params[0]["name"], f.params[0]["id"])
+    LEN = ("v", f.params[1]["name"], f.params[1]["id"])
+    A = poly.Analysis(f, quiet={"generate", "reseed", "instantiate"}, unsigned_terms={LEN}).run()
+    n = 0
+    for r in f.returns():
+        if not r.kids or norm(r.kid(0)) != ("c", 0):
+            continue
+        st = A.state_before(r)
+        if st is None:
+            continue
+        n += 1
+        rep.check(A.holds(st, "==", Lin.var(LEN), Lin.const(0)), "R5-whole", "crypto_entropy_read: success only with nothing left to produce", r.where,
+                  "at this `return (0)` the remaining length is not shown to be 0: the tail of the caller's buffer is returned as random without having been written",
+                  function=f.name, construct="whole")
+    for c in f.calls("generate"):
+        st = A.state_before(c)
+        amt = A.lin(c.arg(1), st) if st is not None else None
+        n += 1
+        ok = amt is not None and A.holds(st, ">=", amt, Lin.const(1)) and A.holds(st, "<=", amt, Lin.var(LEN)) and A.holds(st, "<=", amt, Lin.const(65536))
+        rep.check(ok and norm(c.arg(0)) == BUF, "R5-whole", "each generate step writes at the cursor between 1 and 65536 bytes, no more than remain", c.where,
+                  "amount %s" % (amt,), function=f.name, construct="step-amount")
+        a = norm(c.arg(1))
+        adv = [(show(norm(e.kid(0))), e.op) for e in f.all_elems() if e.is_assign and e.op in ("+=", "-=") and norm(e.kid(1)) == a and f.dominates(c, e)]
+        n += 1
+        rep.check(sorted(adv) == sorted([(show(BUF), "+="), (show(LEN), "-=")]), "R5-whole", "the cursor and the remaining length move by the amount generated", c.where,
+                  "updates by %s after the step: %s" % (show(a), adv), function=f.name, construct="step-advance")
+    return n
+
+
 def run(tier):
     rep = report.Report("C11", tier,
         "Decided: fail-closed typestate (no output from an unseeded or stale-past-the-interval state; entropy failure propagates before "
@@ -325,6 +364,8 @@ def run(tier):
             continue
         r1(prog, rep)
         r2_r3(prog, rep)
+        if r5_whole(prog, rep) < 3:
+            rep.defer_broken("R5: crypto_entropy_read has no success return or no generate step")
         r4(prog, rep)
         from . import c01
         c01.ctx_typestate(prog, rep, [UNIT])
